@@ -4,7 +4,7 @@ import mworld
 META = {
     "engine": "mworld",
     "level": "model_checking",
-    "text": "SnapshotsFrozen is an action property of MutableWorld.tla checked by TLC; on real MutableOverlayWorlds every transition of scenarios 5 and 6 (edits before and after up to two snapshots) is executed and every snapshot taken so far is re-observed after every later step (lookup incl. path geometry through moved points, search through the snapshot's index, enumeration, references) and must equal the specification's frozen copy.",
+    "text": "SnapshotsFrozen is an action property of MutableWorld.tla checked by TLC; on real MutableOverlayWorlds every transition of scenarios 5 and 6 (edits before and after up to two snapshots) is executed and every snapshot taken so far is re-observed after every later step (lookup incl. path geometry through moved points, search through the snapshot's index, enumeration, references) and must equal its own observation at the moment it was taken (the specification's frozen copy snaps[i]).",
     "note": 'Small scope (<= 13 features on a convex polygon, 3 tag keys, 2 values); self-crossing loops are never generated (validity unspecified in the vendored s2). Trusted: TLC, harness/obs, vh-world.',
     "technique": "TLA+ spec (MutableWorld) model-checked by TLC; exported state graph replayed on the real worlds",
 }
@@ -13,7 +13,7 @@ META = {
 def run(ctx):
     return mworld.run_family(
         ctx, "C14", scenarios=[5, 6], impls=['overlay-basic', 'overlay-mutable', 'overlay-empty'],
-        sections=['snap:'],
+        sections=['snap:changed'],
         select=lambda e: len(e['to']['snaps']) > 0,
         meta_rule='every transition in states with >= 1 snapshot executed via its shortest prefix on 3 overlay constructions + random walks',
         assumptions=['Snapshot() of MutableOverlayWorld; MutableTagsOverlayWorld is not covered'])
